@@ -90,6 +90,10 @@ func c16GenRW(r *verifh.Rng) []verifh.Section {
 			}
 		}
 		ops = append(ops, fmt.Sprintf("reduce %d", now))
+		if i == 2 {
+			// interval 0 (outside the property): span() divides by zero, every Add / Reduce panics
+			secs = append(secs, verifh.Section{Cfg: fmt.Sprintf("s=rw size=%d interval=0 iopts=%d t0=%d", size, iopts, t0), Ops: append(append([]string{}, ops[:4]...), "st")})
+		}
 		if i < 2 {
 			// NewRollingWindow(size < 1) panics: no window exists (outside the property, like NewRing(0))
 			secs = append(secs, verifh.Section{Cfg: fmt.Sprintf("s=rw size=%d interval=%d iopts=%d t0=%d", -2*i, iv, iopts, t0), Ops: ops[:3]})
